@@ -21,7 +21,7 @@ one() {
   if ! (cd "$ws" && go build ./... >>"$rep" 2>&1); then echo "BUILD FAILS" >> "$rep"; rm -rf "$ws"; return; fi
   if [ -n "$suite" ]; then (cd "$ws" && go test -vet=off -count=1 ./... >/dev/null 2>&1) || echo "SUITE FAILS" >> "$rep"; fi
   for i in $(seq -w 1 20); do
-    timeout 600 /verif/bin/sqljsonlint -prop C$i -repo "$ws" -verif /tmp/vtmp 2>&1 | grep -E '^(VIOLATION rule|UNDECIDED|LOAD ERROR|ANALYSIS-FAILED|CHECKER-PROBLEM|panic|goroutine )' | sed "s/^/C$i /" | cut -c1-400 >> "$rep"
+    timeout 600 /verif/bin/sqljsonlint -prop C$i -repo "$ws" -verif ${VTMP:-/tmp/vtmp} 2>&1 | grep -E '^(VIOLATION rule|UNDECIDED|LOAD ERROR|ANALYSIS-FAILED|CHECKER-PROBLEM|panic|goroutine )' | sed "s/^/C$i /" | cut -c1-400 >> "$rep"
   done
   rm -rf "$ws"
   echo "checked $name"
